@@ -339,6 +339,13 @@ def check(case, obs):
         outs = run(d, [chans[c]], [list(mef_values[c])] if not isinstance(mef_values, np.ndarray) else mef_values[c:c + 1])
         oks = not raised(outs) and _same_curve(outs.fitting['beads_params'][0], out.fitting['beads_params'][c])
         obs.claim('channel_count', oks, lambda: 'calibrating %s alone gives another curve than together with the others' % chans[c])
+    # ---- one channel in the documented bare form, clustering channels left to their default (= that channel)
+    if nch == 1 and case['np_seed'] % 2 == 1:
+        np.random.seed(case['np_seed'])
+        outd = call(mef.get_transform_fxn, d, mef_values[0], chans[0], statistic_fxn=stat, full_output=True)
+        okd = not raised(outd) and all(np.array_equal(np.asarray(a), np.asarray(b))
+                                       for a, b in zip(outd.fitting['beads_params'], out.fitting['beads_params']))
+        obs.claim('spelling', okd, lambda: 'bare channel %r with default clustering channels: %r' % (chans[0], outd if raised(outd) else 'another result'))
     # ---- channels given by position instead of by name (same data, same seed): the same calibration
     if case['np_seed'] % 3 == 0:
         pos = [2 + c for c in range(nch)]
